@@ -333,7 +333,7 @@ def run_case(case) -> list[dict]:
             ad2 = bind(mp, m, b2)
         except Exception:  # noqa: BLE001  -- the delivered host is not bindable: no neighbours to walk
             return lines
-        for p in mutate_paths(rng, dpath, npaths):
+        for p in ([dpath] if npaths < 0 else mutate_paths(rng, dpath, npaths)):   # npaths -1: only the delivered path itself
             ln = dict(map=m, bind=b2, op="conv", path=cps(p), m=_pub(NOMATCH), rebuilt=[], rb_exc="", under=False, d2path=[], rm=_pub(NOMATCH))
             lines.append(ln)
             o = observe_match(lambda: ad2.match(p))
@@ -904,4 +904,68 @@ def sweep_cases(points) -> list[dict]:
                 out.append({"map": {"rules": [rule], "host_matching": False, "redirect_defaults": True},
                             "bind": {"server": cps("example.com"), "script": cps("/"), "sub": [], "scheme": cps("http")},
                             "ep": 1, "vals": [dict(V("str", text), name=cps("x"))], "ext": False, "npaths": 0, "pseed": 0})
+    return out
+
+
+# ------------------------------------------------------------------ deterministic boundary values (no random draw)
+TEXT_EDGES = ["\n", "\r", " ", ".", "%", "%0A", "+", "?", "#", "é"]
+
+
+def _edge_texts(kind):
+    out = []
+    for e in TEXT_EDGES:
+        out += ["a" + e, e + "a", e, "a" + e + "b"]
+    if kind == "path":
+        for e in TEXT_EDGES + ["/"]:
+            out += ["d/a" + e, e + "a/d", "d/" + e + "/d", "a" + e + "/d"]
+        out += ["a//b", "./a", "a/..", "..", ".", "a/./b"]
+        out = [t for t in out if not t.startswith("/") and not t.endswith("/")]
+    seen, res = set(), []
+    for t in out:
+        if t and t not in seen and ("/" not in t or kind == "path"):
+            seen.add(t)
+            res.append(t)
+    return res
+
+
+def edge_cases() -> list[dict]:
+    """Every converter kind x position of the variable in the rule (last element of a leaf rule, last before a trailing
+    slash, followed by another segment, prefix and suffix in the same segment, below Submount, below Subdomain) x a fixed
+    set of boundary values: texts ending / starting with LF, CR, space, '.', '%', a literal '%0A', '+', '?', '#', ...,
+    single characters; numbers 0, -0, min / max, fixed_digits padding, widest value, huge ints, floats with 16-17
+    significant digits, -0.0."""
+    convs = []
+    for k in ("string", "path"):
+        convs.append((_conv(k), [V("str", t) for t in _edge_texts(k)]))
+    any_items = [t for t in _edge_texts("any") if not any(ch in t for ch in '"\\\n)<>')]
+    for i in range(0, len(any_items), 6):
+        chunk = any_items[i:i + 6]
+        convs.append((_conv("any", items=[cps(t) for t in chunk]), [V("str", t) for t in chunk]))
+    convs.append((_conv("string", c=2), [V("str", t) for t in ("a\n", "\na", " %", "%0", "..")]))
+    convs.append((_conv("string", b=3), [V("str", t) for t in ("a", "ab\n", "%0A", "\n")]))
+    convs.append((_conv("int"), [V("int", t) for t in ("0", "7", "10", "4294967296", "18446744073709551616", "100000000000000000000")]))
+    convs.append((_conv("int", signed=True), [V("int", t) for t in ("0", "-1", "-10", "7", "-9223372036854775809")]))
+    convs.append((_conv("int", a=3), [V("int", t) for t in ("0", "7", "42", "999", "100")]))
+    convs.append((_conv("int", a=3, signed=True), [V("int", t) for t in ("0", "-5", "-42", "7", "999")]))
+    convs.append((_conv("int", hasmin=True, min=5, hasmax=True, max=100), [V("int", t) for t in ("5", "100", "6", "99")]))
+    convs.append((_conv("float"), [V("float", t) for t in ("0.0", "1.0", "0.1", "0.30000000000000004", "0.3333333333333333", "123456789.12345679",
+                                                         "1234567890123456.0", "0.0001", "2.5", "100.0")]))
+    convs.append((_conv("float", signed=True), [V("float", t) for t in ("-0.0", "0.0", "-1.5", "-0.30000000000000004", "-0.0001")]))
+    convs.append((_conv("float", hasmin=True, min=500, hasmax=True, max=10500), [V("float", t) for t in ("0.5", "10.5", "0.501", "10.499")]))
+    convs.append((_conv("uuid"), [V("uuid", t) for t in ("00000000-0000-0000-0000-000000000000", "ffffffff-ffff-ffff-ffff-ffffffffffff")]))
+    positions = ["leaf-last", "branch-last", "then-segment", "affixes", "submount", "subdomain"]
+    out = []
+    for conv, values in convs:
+        for pos in positions:
+            segs = [_lit("s"), _var("x", conv, pre="p-" if pos == "affixes" else "", post="~s" if pos == "affixes" else "")]
+            if pos in ("then-segment",):
+                segs.append(_lit("edit"))
+            if pos == "submount":
+                segs.insert(1, _lit("m"))
+            rule = _rule(1, segs, branch=(pos == "branch-last"), dom="api" if pos == "subdomain" else "",
+                         via={"submount": "submount", "subdomain": "subdomain"}.get(pos, "plain"))
+            for v in values:
+                m = {"rules": [rule], "host_matching": False, "redirect_defaults": True, "sort": 0}
+                b = {"server": cps("example.com"), "script": cps("/app" if pos in ("affixes", "submount") else "/"), "sub": [], "scheme": cps("http")}
+                out.append(norm_case({"map": m, "bind": b, "ep": 1, "vals": [dict(v, name=cps("x"))], "ext": False, "npaths": -1, "pseed": 0, "au": True}))
     return out
